@@ -13,6 +13,7 @@ KINDS = @@KINDS@@
 K1 = @@K1@@            # kind index of the first command (shard constant)
 hc.shim_re("real")
 hc.quiet_logging()
+hc.install_set_model()
 
 
 def _defaults():
@@ -46,5 +47,7 @@ def check(k1: int, k2: int, d1: bool, d2: bool, hdr: Tuple[int, int], custom_hea
         ok = ok and cur[i] == defs0[i]
     # a second, unrelated file in between, then the same file again: same page
     prog.real_page(u2, Settings(), title="other")
+    hc.VSet.rev = True              # the other set-iteration order (hash-seed model)
     p2 = prog.real_page(u1 + u2, s, title=title)
+    hc.VSet.rev = False
     return hc.report(ok and p1 == p2, k1=k1, k2=k2, d1=d1, d2=d2, hdr=hdr, custom_headers=custom_headers, tc=tc)
